@@ -35,7 +35,7 @@ struct H
   int m[3], md;          // designated object id, 0 = null
   int nextId;
   std::set<int> alive; std::string fault;
-  struct Op { int kind, x; };
+  struct Op { int kind, x, y; };
   std::vector<Op> ops; bool opsValid;
   enum { ASSIGNNEW, ASSIGNNEWDERIVED, ASSIGN, ASSIGNNULL, ASSIGNRAW, COPYCTOR, CONVCOPY, CONVASSIGN, SWAP, RECREATE, DROPDERIVED, ROT };
 
@@ -46,7 +46,7 @@ struct H
     for(int i = 0; i < 3; ++i) { LIB(h[i] = new P()); m[i] = 0; }
     LIB(hd = new PD());
   }
-  void add(int k, int x = 0) { Op o = {k, x}; ops.push_back(o); }
+  void add(int k, int x = 0, int y = 0) { Op o = {k, x, y}; ops.push_back(o); }
   void buildOps()
   {
     ops.clear();
@@ -56,7 +56,7 @@ struct H
     for(int j = 0; j < 3; ++j) if(m[j]) add(ASSIGNRAW, j);
     for(int j = 1; j < 3; ++j) add(COPYCTOR, j);
     add(CONVCOPY); add(CONVASSIGN);
-    for(int j = 0; j < 3; ++j) add(SWAP, j);
+    for(int j = 0; j < 3; ++j) { add(SWAP, j); if(j) add(SWAP, j, 1); }   // either handle as the receiver
     add(RECREATE); add(DROPDERIVED);
     add(ROT, 1); add(ROT, 2);
     opsValid = true;
@@ -67,7 +67,7 @@ struct H
     static const char* n[] = {"h0=new Obj", "hd=new Derived;h0=hd", "h0=h", "h0=null", "h0=rawPointerOf h", "h0=Ptr(h)", "h0=Ptr<Obj>(hd)", "h0=hd", "h0.swap(h)", "destroy+recreate h0", "hd=null", "rotate"};
     return n[k];
   }
-  std::string opname(int i) { if(!opsValid) buildOps(); return vf::fmt("%s%d {h0->%d h1->%d h2->%d hd->%d}", kindName(ops[i].kind), ops[i].x, m[0], m[1], m[2], md); }
+  std::string opname(int i) { if(!opsValid) buildOps(); return vf::fmt("%s%d {h0->%d h1->%d h2->%d hd->%d}", (std::string(kindName(ops[i].kind)) + (ops[i].y ? "(reversed receiver)" : "")).c_str(), ops[i].x, m[0], m[1], m[2], md); }
 
   void apply(int i)
   {
@@ -85,7 +85,7 @@ struct H
     case COPYCTOR: { P* n = 0; LIB(n = new P(*h[o.x])); LIB(delete h[0]); h[0] = n; m[0] = m[o.x]; break; }
     case CONVCOPY: { P* n = 0; LIB(n = new P(*hd)); LIB(delete h[0]); h[0] = n; m[0] = md; break; }
     case CONVASSIGN: LIB(a = *hd); m[0] = md; break;
-    case SWAP: { P& b = *h[o.x]; LIB(a.swap(b)); std::swap(m[0], m[o.x]); break; }
+    case SWAP: { P& b = *h[o.x]; if(o.y) LIB(b.swap(a)); else LIB(a.swap(b)); std::swap(m[0], m[o.x]); break; }
     case RECREATE: LIB(delete h[0]); LIB(h[0] = new P()); m[0] = 0; break;
     case DROPDERIVED: LIB(*hd = (Derived*)0); md = 0; break;
     case ROT: std::swap(h[0], h[o.x]); std::swap(m[0], m[o.x]); break;
